@@ -101,6 +101,7 @@ struct Fiber {
     bool frozen = false;
     long freeze_at = -1;               // freeze when own_steps reaches this (C14)
     long own_steps = 0;
+    long last_run = 0;                 // global step at which the fiber last ran (default choice = least recently run)
     int patience = -1;                 // decisions left before a timed wait gives up (-1: only when nothing else can run)
     bool timed = false;                // current pending op is timed
     bool timeout_fired = false;
@@ -322,7 +323,7 @@ inline Fiber* pick() {
         R.res.decisions++;
         if (b == 0) {
             for (int i = 0; i < n; ++i) if (en[i] == R.cur) chosen = en[i];
-            if (!chosen) chosen = en[0];
+            if (!chosen) { chosen = en[0]; for (int i = 1; i < n; ++i) if (en[i]->last_run < chosen->last_run) chosen = en[i]; }   // least recently run: no starvation among spinners
         } else chosen = en[b % n];
     }
     bool cur_could = false;
@@ -334,6 +335,7 @@ inline Fiber* pick() {
 
 inline void after_resume() {
     Runtime& R = rt();
+    R.cur->last_run = R.res.steps;
     // a fiber has been picked and is about to step: all *other* yielded fibers become eligible again
     for (Fiber* f : R.fibers) if (f != R.cur) f->yielded = false;
 }
@@ -424,7 +426,7 @@ inline Fiber* alloc_fiber() {
     f->fn = nullptr;
     f->id = (int)idx; f->started = false; f->done = false; f->pend = P_NONE; f->pm = nullptr; f->pcv = nullptr;
     f->join_target = -1; f->join_status = 0; f->clock.clear(); f->yielded = false; f->frozen = false; f->freeze_at = -1;
-    f->own_steps = 0; f->patience = -1; f->timed = false; f->timeout_fired = false; f->notified = false; f->spurious_in = -1;
+    f->own_steps = 0; f->last_run = 0; f->patience = -1; f->timed = false; f->timeout_fired = false; f->notified = false; f->spurious_in = -1;
     f->held = 0; f->mutex_ops = 0; f->blocking_ops = 0; f->asan_fake = nullptr; f->prio = 0;
     std::memset(f->eh, 0, sizeof f->eh);
 #ifdef VRT_ASAN
@@ -493,6 +495,7 @@ inline void yield_now() {
     Fiber& f = me();
     f.blocking_ops++;
     f.yielded = true;
+    if (rt().spec->mode == 1) f.prio = --rt().pct_low;     // PCT: a yielding (spinning) fiber drops below everyone else
     f.pend = P_NONE;
     point();
 }
